@@ -37,7 +37,7 @@ var boundB = map[string]uint64{"png": 6000, "auto": 6000, "jpeg": 32, "webp": 32
 
 // time budget: grows with the input size, not with numbers written in the input
 func timeBudget(n int) time.Duration {
-	return 4*time.Second + time.Duration(n>>20)*time.Second
+	return time.Second + time.Duration(n>>20)*time.Second
 }
 
 type result struct {
@@ -112,14 +112,33 @@ func family(c Case) string {
 	return c.Target
 }
 
+// slowest: the largest share of its time budget any call used (reported in the evidence: how far the budget is
+// from what conforming behaviour needs)
+var ampSeconds float64
+var phaseStart time.Time
+var phaseSeconds = map[string]float64{}
+
+func phase(name string) {
+	phaseSeconds[name] = time.Since(phaseStart).Seconds()
+	phaseStart = time.Now()
+}
+
+var slowestShare float64
+var slowestDesc string
+
 func check(c Case) (kind, what string, r result) {
 	ev.Journal("hostile", c)
 	r = exercise(c)
+	if sh := float64(r.elapsed) / float64(timeBudget(len(c.Data))); sh > slowestShare {
+		slowestShare, slowestDesc = sh, fmt.Sprintf("%v for %d bytes: %.120s", r.elapsed, len(c.Data), c.Desc)
+	}
 	k := family(c) + "/"
 	if r.hung {
-		// a slow machine is not a hang: measure once more before calling it one
-		if r2 := exercise(c); !r2.hung {
-			r = r2
+		// a slow machine is not a hang: the call must exceed its budget three times in a row to be called one
+		for i := 0; i < 2 && r.hung; i++ {
+			if r2 := exercise(c); !r2.hung {
+				r = r2
+			}
 		}
 	}
 	switch {
@@ -275,6 +294,36 @@ func amplifiers() []Case {
 		share[0] = -1
 		out = append(out, Case{Desc: fmt.Sprintf("mluc with %d records all sharing one %d-unit string", n, 12*n), Target: "icc", Data: build.SimpleProfile(build.Mluc(recs, nil, share, 0), 0)})
 	}
+	// ... and the same with what the shared string holds (ordinary text, blanks, NULs, lone surrogates) and whether an
+	// English record exists varied: a fallback that inspects record after record pays for the shared string each time
+	for _, fillUnit := range []string{"x", " ", "\x00", "\xd8\x00"} {
+		for _, withEn := range []bool{false, true} {
+			n := 6000
+			unitsN := 60000
+			recs := make([]build.MlucRec, n)
+			share := make([]int, n)
+			long := string(bytes.Repeat([]byte("y"), unitsN))
+			for i := range recs {
+				l0, l1 := byte('a'+i%26), byte('a'+(i/26)%26)
+				if l0 == 'e' && l1 == 'n' && !withEn {
+					l1 = 'q'
+				}
+				recs[i] = build.MlucRec{Lang: [2]byte{l0, l1}, Country: [2]byte{byte('A' + (i/676)%26), 'Z'}, Text: long}
+				share[i] = 0
+			}
+			share[0] = -1
+			tag := build.Mluc(recs, nil, share, 0)
+			// overwrite the stored string (the tail of the tag) with the fill unit, UTF-16BE
+			fu := []byte(fillUnit)
+			if len(fu) == 1 {
+				fu = []byte{0, fu[0]}
+			}
+			for k := len(tag) - 2*unitsN; k+1 < len(tag); k += 2 {
+				tag[k], tag[k+1] = fu[0], fu[1]
+			}
+			out = append(out, Case{Desc: fmt.Sprintf("mluc with %d records (English record: %v) all sharing one %d-unit string of %q", n, withEn, unitsN, fillUnit), Target: "icc", Data: build.SimpleProfile(tag, 0)})
+		}
+	}
 	// long runs of one byte value after each format's signature: anything that keeps per-byte state (recursion,
 	// a growing slice) shows up as stack or heap growth, or as a crash, only for inputs of tens of MiB
 	runLen := ev.Pick(20<<20, 72<<20)
@@ -298,6 +347,66 @@ func amplifiers() []Case {
 				out = append(out, Case{Desc: fmt.Sprintf("%s followed by %d bytes of %#02x", pre.name, runLen, b), Target: "auto", Data: d})
 			}
 		}
+	}
+	// very many small elements: per-element work that grows with the number of elements already seen (a linear
+	// search, a re-scan, a copy of what was collected so far) becomes seconds at these counts, while each input
+	// stays a few MiB at most
+	{
+		n := 150000
+		var pre []build.Chunk
+		for i := 0; i < n; i++ {
+			pre = append(pre, build.Chunk{Type: "tEXt", Data: []byte{byte('a' + i%26)}})
+		}
+		d, _ := build.PNG{W: 1, H: 1, Depth: 8, ColorType: 0, Pre: append(pre, build.ICCPChunk("p", build.SimpleProfile(build.TextDesc("after many chunks"), 0), 6)), IDAT: []byte{0}}.Bytes()
+		out = append(out, Case{Desc: fmt.Sprintf("PNG with %d one-byte tEXt chunks before iCCP", n), Target: "png", Data: d}, Case{Desc: fmt.Sprintf("PNG with %d one-byte tEXt chunks before iCCP", n), Target: "auto", Data: d})
+		var many []build.Chunk
+		small := build.ICCPChunk("p", build.SimpleProfile(build.TextDesc("one of many"), 0), 6)
+		for i := 0; i < 4000; i++ {
+			many = append(many, small)
+		}
+		d, _ = build.PNG{W: 1, H: 1, Depth: 8, ColorType: 0, Pre: many, IDAT: []byte{0}}.Bytes()
+		out = append(out, Case{Desc: "PNG with 4000 iCCP chunks", Target: "png", Data: d})
+		var segs []build.Seg
+		for i := 0; i < n; i++ {
+			segs = append(segs, build.Seg{Marker: byte(0xE3 + i%12), Data: []byte{byte(i)}})
+		}
+		segs = append(segs, build.ICCSegs(bytes.Repeat([]byte{9}, 300), []int{100, 100})...)
+		segs = append(segs, build.Seg{Marker: 0xC2, Data: build.SOF(8, 1, 1, [][3]byte{{1, 0x11, 0}})})
+		d, _ = build.JPEG{Segs: segs, SOS: []byte{1, 1, 0, 0, 63, 0}}.Bytes()
+		out = append(out, Case{Desc: fmt.Sprintf("JPEG with %d one-byte APPn segments before the ICC chunks and SOF2", n), Target: "jpeg", Data: d})
+		segs = nil
+		for i := 0; i < 20000; i++ {
+			segs = append(segs, build.ICCSeg(byte(1+i%255), 255, []byte{byte(i), 1, 2, 3}))
+		}
+		segs = append(segs, build.Seg{Marker: 0xC0, Data: build.SOF(8, 1, 1, [][3]byte{{1, 0x11, 0}})})
+		d, _ = build.JPEG{Segs: segs, SOS: []byte{1, 1, 0, 0, 63, 0}}.Bytes()
+		out = append(out, Case{Desc: "JPEG with 20000 ICC segments re-using chunk numbers 1..255", Target: "jpeg", Data: d})
+		chunks := []build.RIFFChunk{{FourCC: "VP8X", Data: build.VP8XHeader(0x20, 1, 1)}}
+		for i := 0; i < n; i++ {
+			chunks = append(chunks, build.RIFFChunk{FourCC: "XTR" + string(rune('A'+i%26)), Data: []byte{1}})
+		}
+		chunks = append(chunks, build.RIFFChunk{FourCC: "ICCP", Data: build.SimpleProfile(build.TextDesc("late"), 0)}, build.RIFFChunk{FourCC: "VP8L", Data: build.VP8LHeader(1, 1, false)})
+		d, _ = build.WebP{Chunks: chunks}.Bytes()
+		out = append(out, Case{Desc: fmt.Sprintf("WebP VP8X with %d one-byte unknown chunks before ICCP", n), Target: "webp", Data: d})
+		p := build.ICC{Header: build.DefaultHeader()}
+		p.Tags = append(p.Tags, build.ICCTag{Sig: 0x64657363, Data: build.TextDesc("a hundred thousand tags"), Share: -1})
+		for i := 0; i < 100000; i++ {
+			p.Tags = append(p.Tags, build.ICCTag{Sig: 0x43000000 + uint32(i), Share: 0})
+		}
+		d, _ = p.Bytes()
+		out = append(out, Case{Desc: "ICC profile with 100001 tags", Target: "icc", Data: d})
+		p = build.ICC{Header: build.DefaultHeader()}
+		for i := 0; i < 50000; i++ {
+			p.Tags = append(p.Tags, build.ICCTag{Sig: 0x63707274, Share: -1, Data: []byte("text\x00\x00\x00\x00x\x00\x00\x00")})
+		}
+		p.Tags = append(p.Tags, build.ICCTag{Sig: 0x64657363, Data: build.TextDesc("last of many equal signatures"), Share: -1})
+		d, _ = p.Bytes()
+		out = append(out, Case{Desc: "ICC profile with 50000 tags of one signature, description last", Target: "icc", Data: d})
+		recs := make([]build.MlucRec, 60000)
+		for i := range recs {
+			recs[i] = build.MlucRec{Lang: [2]byte{byte('a' + i%26), byte('a' + (i/26)%26)}, Country: [2]byte{byte('A' + (i/676)%26), byte('A' + (i/17576)%26)}, Text: "ab"}
+		}
+		out = append(out, Case{Desc: "mluc with 60000 records, own strings", Target: "icc", Data: build.SimpleProfile(build.Mluc(recs, nil, nil, 0), 0)})
 	}
 	// JPEG with 255 ICC chunks and many small segments
 	prof := bytes.Repeat([]byte{7}, 255*40)
@@ -328,7 +437,8 @@ func TestC09(t *testing.T) {
 		return
 	}
 	debug.SetGCPercent(400)
-	ev.Rule("(a) field matrix: every length/count/offset/dimension/type field in the field map of every seed (repository images and profile, grammar-built files incl. multi-record mluc, hostile mini-files; ICC fields of embedded profiles included) x ~40 hostile values (0,1,2,7,8,9,11,12,13,127,128,255,256,65535,65536,2^24-1,2^24,2^31-1,2^31,2^32-1, field+-1, field+-12, remaining length +-1, values making offset+size wrap 2^32), singly and in rapid-chosen pairs; (b) rapid structure-aware mutation (1-4 operators: set-field, truncate, duplicate/drop/swap chunk, splice two files, flip bits, change a type tag) of generated valid files and seeds; (a4) v2 textDescription tags built field by field (ASCII count x Unicode count incl. counts whose doubling wraps 2^32 x units present x ScriptCode count); (c) every truncation of every seed <= 8 KiB; (d) amplifier inputs (maximal-ratio deflate, many tags, many mluc records, 255 JPEG chunks). Entry chain per input: Load -> ICCProfile -> Description (or ReadProfile -> Description). Oracle: no escaping panic, TotalAlloc delta <= 1 MiB + B*len(input), return within 10 s + 1 s/MiB. non-trivial = distinct mutated input whose signature is still accepted by the targeted entry point")
+	mut.Full = ev.Thorough()
+	ev.Rule("(a) field matrix: every length/count/offset/dimension/type field in the field map of every seed (repository images and profile, grammar-built files incl. multi-record mluc, hostile mini-files; ICC fields of embedded profiles included) x ~40 hostile values (0,1,2,7,8,9,11,12,13,127,128,255,256,65535,65536,2^24-1,2^24,2^31-1,2^31,2^32-1, field+-1, field+-12, remaining length +-1, values making offset+size wrap 2^32), singly and in rapid-chosen pairs; (b) rapid structure-aware mutation (1-4 operators: set-field, truncate, duplicate/drop/swap chunk, splice two files, flip bits, change a type tag) of generated valid files and seeds; (a4) v2 textDescription tags built field by field (ASCII count x Unicode count incl. counts whose doubling wraps 2^32 x units present x ScriptCode count); (c) every truncation of every seed <= 8 KiB (quick, seeds > 2500 bytes: structure boundaries +-2 and every fifth position); (d) amplifier inputs (maximal-ratio deflate, many tags, many mluc records, 255 JPEG chunks). Entry chain per input: Load -> ICCProfile -> Description (or ReadProfile -> Description). Oracle: no escaping panic, TotalAlloc delta <= 1 MiB + B*len(input), return within 1 s + 1 s/MiB (exceeded three times in a row; the slowest conforming call observed uses about 1-5 % of it). non-trivial = distinct mutated input whose signature is still accepted by the targeted entry point")
 	ev.Set("alloc_bound", map[string]any{"A_bytes": boundA, "B_per_input_byte": boundB})
 	ev.Assume("allocation is observed as the runtime.MemStats.TotalAlloc delta around the call (process-wide; a violation is re-measured once); absence over all byte strings is not established")
 	rc := &recorder{bad: map[string]bool{}}
@@ -336,6 +446,8 @@ func TestC09(t *testing.T) {
 
 	// (d) amplifiers first: they calibrate the bound
 	worst := map[string]float64{}
+	tAmp := time.Now()
+	defer func() { ev.Set("amplifier_phase_seconds", ampSeconds) }()
 	for _, c := range amplifiers() {
 		r := rc.run(c, true)
 		ratio := float64(r.alloc) / float64(len(c.Data))
@@ -344,6 +456,8 @@ func TestC09(t *testing.T) {
 		}
 	}
 	ev.Set("amplifier_worst_alloc_per_input_byte", worst)
+	ampSeconds = time.Since(tAmp).Seconds()
+	phaseStart = time.Now()
 
 	// (a) field matrix
 	var nMatrix int64
@@ -364,6 +478,7 @@ func TestC09(t *testing.T) {
 		}
 	}
 	ev.Class("field-matrix", nMatrix)
+	phase("field-matrix")
 	// (a') pairs of neighbouring fields (two cooperating values in one structure, e.g. a count and a record size):
 	// every ordered pair of fields whose offsets are within 32 bytes x extreme values
 	var nPairs int64
@@ -397,6 +512,7 @@ func TestC09(t *testing.T) {
 		}
 	}
 	ev.Class("field-pairs", nPairs)
+	phase("field-pairs")
 	// (a'') consistent huge values: field f is set to an extreme value V and the SAME delta is applied to one
 	// other field g anywhere in the file, so that two numbers that must agree (a total size and the end of the
 	// last element, an offset and a length) stay consistent while both become hostile
@@ -434,6 +550,7 @@ func TestC09(t *testing.T) {
 		}
 	}
 	ev.Class("field-delta-pairs", nDelta)
+	phase("field-delta-pairs")
 	// (a3) description strings of 0..4 bytes whose first bytes are text-encoding edge values (byte order marks,
 	// lone surrogates, NUL, 0xFF): every mluc record and the v2 ASCII field of every profile-bearing seed
 	var nText int64
@@ -473,6 +590,7 @@ func TestC09(t *testing.T) {
 		}
 	}
 	ev.Class("text-edge-bytes", nText)
+	phase("text-edge-bytes")
 	// (a4) the whole v2 textDescription structure by construction: the position of the Unicode and ScriptCode
 	// counts depends on the ASCII count, so a field map with fixed offsets cannot keep two of them hostile at once
 	var nDesc int64
@@ -511,13 +629,25 @@ func TestC09(t *testing.T) {
 		}
 	}
 	ev.Class("textdescription-grid", nDesc)
+	phase("textdescription-grid")
 	// (c) truncations
 	var nTrunc int64
 	for _, sd := range all {
 		if len(sd.Data) > 8192 {
 			continue
 		}
+		near := map[int]bool{}
+		if !ev.Thorough() && len(sd.Data) > 2500 {
+			for _, e := range mut.Ends(sd.Map, len(sd.Data)) {
+				for d := -2; d <= 2; d++ {
+					near[e+d] = true
+				}
+			}
+		}
 		for cut := 0; cut < len(sd.Data); cut++ {
+			if near != nil && len(near) > 0 && !near[cut] && cut%5 != 0 {
+				continue // quick, seeds > 2500 bytes: every structure boundary +-2 and every fifth position
+			}
 			for _, target := range targetsFor(sd.Kind) {
 				rc.run(Case{Desc: fmt.Sprintf("%s truncated to %d", sd.Name, cut), Target: target, Data: sd.Data[:cut]}, true)
 				nTrunc++
@@ -525,6 +655,7 @@ func TestC09(t *testing.T) {
 		}
 	}
 	ev.Class("truncations", nTrunc)
+	phase("truncations")
 	ev.Sample(map[string]any{"kind": "field-matrix", "example": "test-profiles/display-p3-v4-with-v2-desc.icc: field icc.tagcount @128 -> 0xffffffff", "target": "icc"})
 
 	if len(rc.bad) > 0 {
@@ -587,6 +718,9 @@ func TestC09(t *testing.T) {
 			ev.Fail(rt, "hostile", k, w, c)
 		}
 	})
+	phase("rapid-mutations")
+	ev.Set("phase_seconds", phaseSeconds)
+	ev.Set("slowest_call_share_of_time_budget", map[string]any{"share": slowestShare, "call": slowestDesc})
 	if ev.Violations() > 0 {
 		t.Fail()
 	}
